@@ -38,7 +38,7 @@ class Instr(object):
         e = self.expr
         if e is None:
             return []
-        if e[0] in ('floor0', 'roundup'):
+        if e[0] in ('floor0', 'roundup', 'cap0'):
             e = e[1]
         k = e[0]
         if k == 'add':
@@ -104,7 +104,7 @@ def expand_list(listtext, ordered_labels):
 
 
 IGNORABLE_TAIL = re.compile(
-    r'^(?:\s*(?:This is (?:your|the)[^.]*\.|These are your[^.]*\.|This amount is taxed at 0%\.|Note:.*|Caution:.*|Attach [^.]*\.|'
+    r'^(?:\s*(?:Close parenthesis\.|This is (?:your|the)[^.]*\.|These are your[^.]*\.|This amount is taxed at 0%\.|Note:.*|Caution:.*|Attach [^.]*\.|'
     r'For details on how to pay[^.]*\.[^.]*\.?|See instructions\.?|\(see instructions\)\.?|Enter here and go to Part [IVX ]+\.|and go to Part [IVX ]+\.|'
     r'Number before the decimal\.|Enter the result as a decimal rounded to at least 3 places\.|Also include this amount[^.]*\.(?:[^.]*\.)?|'
     r'If more than zero, also include this amount on[^.]*\.(?:.*)?|If more than zero, you may be subject to an additional tax[^.]*\.|'
@@ -161,6 +161,15 @@ def parse(text, label, ordered_labels=None):
         labels = expand_list(m.group('l').strip(), ordered_labels)
         if labels:
             done(('add', labels), m, b)
+            fm = re.match(r'^\s*If zero or less, enter 0\.', rest)
+            if fm:
+                expr = ('floor0', expr)
+                rest = rest[fm.end():]
+            else:
+                fm = re.match(r'^\s*If greater than zero, enter 0\.', rest)
+                if fm:
+                    expr = ('cap0', expr)
+                    rest = rest[fm.end():]
     if expr is None:
         m = re.match(rf'^If line (?P<b>{LAB}) is more than line (?P<a>{LAB}), subtract line (?P<a2>{LAB}) from line (?P<b2>{LAB})\.', b)
         if m and m.group('a') == m.group('a2') and m.group('b') == m.group('b2'):
@@ -243,6 +252,9 @@ def evaluate(expr, get):
     if k == 'floor0':
         r = evaluate(expr[1], get)
         return None if r is None else max(0.0, r)
+    if k == 'cap0':
+        r = evaluate(expr[1], get)
+        return None if r is None else min(0.0, r)
     if k == 'roundup':
         import math
         r = evaluate(expr[1], get)
